@@ -240,6 +240,9 @@ func (t *TrafBox) OptimizeTfhdTrun() error {
 		if hasCommonFlags {
 			if firstSampleFlags != commonSampleFlags {
 				trun.SetFirstSampleFlags(firstSampleFlags)
+			} else {
+				// A stale firstSampleFlags would override the default once the sample flags are dropped
+				trun.RemoveFirstSampleFlags()
 			}
 			tfhd.Flags = tfhd.Flags | defaultSampleFlagsPresent
 			tfhd.DefaultSampleFlags = commonSampleFlags
